@@ -1,6 +1,6 @@
 //! C12: key identity (key ids, constructors, SPKI import/export, key tables).
 use crate::c04::keyid_hex;
-use crate::meta::{key_pool, keys_dir, KeyInfo};
+use crate::meta::{key_pool_all_sizes, keys_dir, KeyInfo};
 use crate::model::Model;
 use crate::proto::{guarded, hex, hexs, unhex, Sink};
 use crate::rng::Rng;
@@ -80,7 +80,7 @@ pub fn run(cfg: &Cfg) {
     let mut sink = Sink::new(&cfg.out);
     let mut r = Rng::new(cfg.seed);
     let mut model = Model::start();
-    let pool = key_pool(if cfg.thorough { 40 } else { 6 });
+    let pool = key_pool_all_sizes(if cfg.thorough { 40 } else { 6 });
     let sha2 = Some(vec!["sha256".to_string(), "sha512".to_string()]);
 
     for k in &pool {
@@ -158,12 +158,37 @@ pub fn run(cfg: &Cfg) {
         }
     }
     // fixture SPKIs written by openssl (rsa, ecdsa) must equal the model's standard encoding
-    for (file, t) in [("rsa-2048.spki.der", "rsa"), ("rsa-4096.spki.der", "rsa"), ("ec.spki.der", "ecdsa")] {
+    for (file, t) in [("rsa-2048.spki.der", "rsa"), ("rsa-3072.spki.der", "rsa"), ("rsa-4096.spki.der", "rsa"), ("rsa-8192.spki.der", "rsa"), ("ec.spki.der", "ecdsa")] {
         let der = std::fs::read(keys_dir().join(file)).unwrap();
-        let k = PublicKey::from_spki(&der, scheme_for(t)).unwrap();
+        let k = match guarded({ let d = der.clone(); move || PublicKey::from_spki(&d, scheme_for(t)) }) {
+            Ok(Ok(k)) => k,
+            _ => {
+                sink.oracle(false, "a standards-conformant SubjectPublicKeyInfo written by openssl is rejected", &format!("spki_dec {}", hex(&der)));
+                spki_dec_case(&mut sink, &mut model, &der, "fixture");
+                continue;
+            }
+        };
         let std = model.ask(&format!("spki_enc {} {}", t, hex(k.as_bytes())));
         sink.oracle(std == hex(&der), "the model's standard SPKI differs from the openssl-written fixture", file);
         spki_dec_case(&mut sink, &mut model, &der, "fixture");
+        // every construction path of the public key alone (covers sizes the library cannot sign with)
+        keyid_case(&mut sink, &k, "fixture");
+        let id = keyid_hex(&k);
+        sink.oracle(k.as_spki().ok().as_deref() == Some(&der[..]), "a standards-conformant SubjectPublicKeyInfo is not re-exported unchanged", file);
+        let pem_text = pem::encode(&pem::Pem::new("PUBLIC KEY", der.clone()));
+        match guarded({ let t2 = pem_text.clone(); move || PublicKey::from_pem_spki(&t2, scheme_for(t)) }) {
+            Ok(Ok(k3)) => sink.oracle(keyid_hex(&k3) == id && k3 == k, "key or key id changes through PEM import", file),
+            _ => sink.oracle(false, "the PEM form of a standards-conformant SubjectPublicKeyInfo is rejected", file),
+        }
+        let j = serde_json::to_value(&k).unwrap();
+        match guarded({ let j2 = j.clone(); move || serde_json::from_value::<PublicKey>(j2) }) {
+            Ok(Ok(back)) => sink.oracle(keyid_hex(&back) == id && back == k, "key id or key changes in a JSON round trip", file),
+            _ => sink.oracle(false, "a public key does not survive its own JSON form", file),
+        }
+        match LayoutMetadataBuilder::new().add_key(k.clone()).build().ok().and_then(|l| serde_json::to_value(&l).ok()).and_then(|v| serde_json::from_value::<LayoutMetadata>(v).ok()) {
+            Some(l2) => sink.oracle(l2.keys.values().any(|x| *x == k), "a key is lost from the key table in a layout round trip", file),
+            None => sink.oracle(false, "a layout listing a supported key does not survive the wire", file),
+        }
     }
     // the (non-standard, NULL-parameter) ed25519 fixture of the repo must keep importing
     let der = std::fs::read(keys_dir().join("ed25519-1.spki.der")).unwrap();
